@@ -19,6 +19,11 @@ theorem facts_safe : ChooserFactsSafe := by decide
 
 theorem order_is : Gen.selectLoc.order = [.configured, .parent, .internal] := facts_safe.1.2.2.2
 
+/-- the source denotes the specified rule — the one the driver answers the correspondence with -/
+theorem source_is_spec (possible configured : List Loc) (parent internal : Loc) :
+    selectLocation Gen.selectLoc possible configured parent internal = selectLocation Sel.spec possible configured parent internal :=
+  selectLocation_of_safe facts_safe.1 possible configured parent internal
+
 theorem unfold_select (possible configured : List Loc) (parent internal : Loc) :
     selectLocation Gen.selectLoc possible configured parent internal = choose possible (configured ++ [parent, internal]) := by
   unfold selectLocation; rw [order_is, prioOf_safe]
